@@ -298,7 +298,7 @@ class Timeline:
             # Round to work around rounding errors.
             # http://docs.python.org/tutorial/floatingpoint.html
             #--------------------------------------------------------------------------------
-            if round(action.time, 8) <= round(self.current_time, 8):
+            if round(action.time - self.current_time, 8) <= 0:
                 action.function()
                 self.actions.remove(action)
 
